@@ -101,6 +101,7 @@ def run(ctx, run):
     from .. import sweep
     sweep.run(ctx, run, [UNIT_VPS, UNIT_830, "src/pdc.c"], {}, 90)
     _bcd_digit_bounds(ctx, run)
+    neg.helper_contract(ctx, run)
 
 def _neg_selftest(ctx, run):
     from .. import selftest
